@@ -76,6 +76,9 @@ fn mine(prop: &str, r: &RunResult) -> Vec<Finding> {
 		// data is reachable only under a live hold: the hold must really be there
 		"C15" => v.extend(r.findings.iter().filter(|f| f.prop == "C02").map(|f| Finding { prop: "C15", sig: format!("data-reached-without-a-live-hold|{}", f.sig), ..f.clone() })),
 		// one key per thread, surrendered for the whole of every hold
+		// the value that comes back is the last one written under the lock:
+		// only if sections on the same lock really exclude each other
+		"C16" => v.extend(r.findings.iter().filter(|f| f.prop == "C02").map(|f| Finding { prop: "C16", sig: format!("last-write-not-protected|{}", f.sig), ..f.clone() })),
 		"C14" => v.extend(
 			r.findings
 				.iter()
@@ -1964,6 +1967,10 @@ fn c16(tier: Tier, seed: u64) -> i32 {
 	ctx.rule = "Scenario plans decoded from proptest byte vectors: leaf type (Mutex, RwLock, Poisonable<Mutex>) x container (Vec, Box<[_]>, arrays of 0..4, tuples of 1..3) x size 0..4 x construction path (Boxed new / from / try_new / new_ref, Owned new / from, Retrying new / from / try_new / new_ref, Ref new / try_new, FromIterator (collect) into Boxed / Owned / Retrying over Vec, and try_new REJECTING an input that owns locks next to a duplicated reference) x writes under lock (through collection guards and scoped closures, per position) x optional poisoning panic x destruction path (drop, into_child + into_inner of the container, into_inner, into_iter (+ into_inner of every lock), extend (Owned / Retrying over Vec) then into_inner, get_mut / child_mut then drop, by-reference collection then container get_mut / into_inner). Oracle: drop-counting payloads: every id exactly once when everything is gone (and exactly once right after a rejected try_new); get_mut / into_inner / into_child return (id, last written version) at every declared position. Non-trivial = a write under a lock followed by a consuming destructor or observer, or a rejected try_new with owned content; distinct = hash of the plan.".into();
 	let n = tier.pick(600_000, 10_000_000);
 	ctx.search("drop-once-and-round-trip", n, 40, |bytes, want| c16_eval(bytes, want));
+	// "reflecting the last write made under a lock" with more than one writer:
+	// the histories and programs of C02 (shadow versions, held-at-use, no
+	// release of another thread's hold), read for this property
+	runtime_half(&mut ctx, "C16", tier, &["C02"], "C02");
 	ctx.require_label("c16.rejected_try_new_with_owned_content", 1000);
 	ctx.require_label("c16.poisoned", 1000);
 	ctx.require_label("c16.end.IntoChild", 1000);
@@ -2083,6 +2090,7 @@ pub fn seq_profile(prop: &str) -> Option<(SeqCfg, Opts)> {
 			cfg.w.p_unwinding_drop = 40;
 			cfg.w.p_owned_key = 128;
 			cfg.w.park_key = 3;
+			cfg.w.probe_key_many = 3;
 			cfg.world.max_colls = 3;
 			let opts = Opts::default();
 			Some((cfg, opts))
@@ -2183,6 +2191,7 @@ pub fn seq_profile(prop: &str) -> Option<(SeqCfg, Opts)> {
 			// killed members: an acquisition that unwinds half-way must not touch
 			// the holds of others
 			cfg.w.kill = 1;
+			cfg.w.p_panic = 30;
 			cfg.w.p_try = 60;
 			let opts = Opts::default();
 			Some((cfg, opts))
